@@ -436,6 +436,24 @@ def run(chk, repo, tier):
            okn if (not undn or not okn) else None, 'bins construction not recognised' if undn else '', fb.loc())
 
 
+def _slices_cover(method, ops):
+    """Shifted slices X[o:hi:st] of the samples / edges that meet element by element: each has the stride of the rule and
+    as many items as there are bins - n-1 for n edges (trapezoid), (n-1)/2 for n = 2m+1 nodes (Simpson) - whatever n."""
+    stride = 1 if method == 'trapz' else 2
+    M = 1 if method == 'trapz' else 2
+    for sl in ops:
+        o = 0 if sl.lo in (NONE, None) else sl.lo.const_value()
+        st = 1 if sl.step in (NONE, None) else sl.step.const_value()
+        hi = 0 if sl.hi in (NONE, None) else sl.hi.const_value()
+        if o is None or st != stride or hi is None or not (0 <= o <= M) or hi > 0:
+            return False
+        for n in ((3, 4, 5, 8) if method == 'trapz' else (3, 5, 7, 11)):
+            stop = n + int(hi) if hi < 0 else n
+            if len(range(int(o), stop, int(st))) != (n - 1 if method == 'trapz' else (n - 1) // 2):
+                return False
+    return True
+
+
 def bins_form(p, fb, J):
     """How Spectrum.bin builds its bins on path p: -> (bins value B, the j-th bin as a term in the
     counter J (0-based), count_ok(method, f, x) -> bool) or None when the construction is not one of
@@ -501,15 +519,7 @@ def bins_form(p, fb, J):
                 # an operand starting at offset o stops at o - M (M = largest offset)
                 if ops is None:
                     return False
-                stride = 1 if method == 'trapz' else 2
-                M = 1 if method == 'trapz' else 2
-                for sl in ops:
-                    o = 0 if sl.lo == NONE else sl.lo.const_value()
-                    st = 1 if sl.step == NONE else sl.step.const_value()
-                    hi = 0 if sl.hi == NONE else sl.hi.const_value()
-                    if o is None or st != stride or hi is None or not (0 <= o <= M) or hi != o - M:
-                        return False
-                return True
+                return _slices_cover(method, ops)
             return B, term_j, count_ok
     # whole-array arithmetic over shifted slices of the samples and the edges: bins = 0.5*(f[:-1] + f[1:])*(x[1:] - x[:-1]).
     # Element J of a slice X[a:b:s] is X[a + s*J], of diff(X) is X[J+1] - X[J]; anything else (np.gradient, cumsum, ...)
@@ -517,33 +527,31 @@ def bins_form(p, fb, J):
     smp = p.calls(f'{SPEC}.sample')
     if len(smp) == 1:
         fx = smp[0].result
-        for nm, val in sorted(p.state.env.items()):
+        # the unscaled bins: what power preservation sums (`bins * total/np.sum(bins)`), else a local that holds them
+        summed = [a[2][0] for a in nf.value_atoms(p.ret) if is_app(a, 'sum') and a[2] and isinstance(a[2][0], Poly)]
+        for nm, val in [('', v_) for v_ in summed] + sorted(p.state.env.items()):
             if not isinstance(val, Poly) or not val.terms:
                 continue
             sl = [a for a in nf.value_atoms(val) if a[0] == 'idx' and isinstance(a[2], Slice) and Poly.atom(a[1]) == fx]
             if not sl or any(a[0] == 'loop' for a in nf.value_atoms(val)):
                 continue
             mapping, ops = {}, []
+            xx_ = smp[0].bound.get('wave')
+            tops = [fx.single_atom()] + ([xx_.single_atom()] if isinstance(xx_, Poly) and xx_.single_atom() is not None else [])
             for a in nf.value_atoms(val):
                 if a[0] == 'idx' and isinstance(a[2], Slice):
                     lo = a[2].lo if isinstance(a[2].lo, Poly) else C(0)
                     st = a[2].step if isinstance(a[2].step, Poly) else C(1)
-                    mapping[a] = nf.index(Poly.atom(a[1]), lo + st * J)
-                    ops.append(a[2])
+                    if a[1] in tops:
+                        # slices of the samples / the edges themselves (not of what the edges are built from)
+                        mapping[a] = nf.index(Poly.atom(a[1]), lo + st * J)
+                        ops.append(a[2])
                 elif is_app(a, ('diff', 'ediff1d')) and len(a[2]) == 1 and isinstance(a[2][0], Poly):
                     mapping[a] = nf.index(a[2][0], J + 1) - nf.index(a[2][0], J)
             term_j = nf.subst_value(val, mapping)
 
             def count_ok(method, f, x, ops=ops):
-                stride = 1 if method == 'trapz' else 2
-                M = 1 if method == 'trapz' else 2
-                for s_ in ops:
-                    o = 0 if s_.lo == NONE else s_.lo.const_value()
-                    st = 1 if s_.step == NONE else s_.step.const_value()
-                    hi = 0 if s_.hi == NONE else s_.hi.const_value()
-                    if o is None or st != stride or hi is None or not (0 <= o <= M) or hi != o - M:
-                        return False
-                return True
+                return _slices_cover(method, ops)
             return val, term_j, count_ok
     return None
 
